@@ -39,6 +39,7 @@ import re
 
 import lib
 import norm_common as nc
+import normwhole as nw
 import urlgen
 
 ID = "C04"
@@ -90,7 +91,37 @@ THEOREMS = [P + n for n in [
     "keepLabels_idem",
     "keepLabels_cons_keep",
     "decode_join_fixed",
-]] + ["Ural.infer_clean_congr", "Ural.inferOf_clean_congr"]
+]] + ["Ural.infer_clean_congr", "Ural.inferOf_clean_congr"] + [
+    # the parser inside the model: normalize_url on STRINGS (Model/NormalizeUrl.lean, Lemmas/NormBridge.lean,
+    # Props/C04Whole.lean)
+    "Ural.Normalize.normalizeUrlString_eq",
+    "Ural.Normalize.normalizeUrlStringSplit_eq",
+    "Ural.NormBridge.parse_str",
+    "Ural.NormBridge.parseUrl_scheme",
+    "Ural.NormBridge.parseUrl_slashes",
+    "Ural.NormBridge.parseAuthority_rest",
+    "Ural.NormBridge.normalizeUrlString_cleaned",
+    "Ural.NormBridge.normalizeUrlSplit_grammar",
+    "Ural.NormBridge.string_of_grammar_rel",
+    "Ural.NormBridge.string_of_grammar",
+] + [P + n for n in [
+    "normG_scheme", "norm_scheme_string", "norm_scheme_string_rel",
+    "normG_userinfo", "norm_userinfo_string", "norm_userinfo_string_rel",
+    "normG_default_port", "norm_default_port_string", "norm_default_port_string_rel",
+    "normG_host_case", "norm_host_case_string", "norm_host_case_string_rel",
+    "normG_irrelevant_label", "norm_irrelevant_label_string", "norm_irrelevant_label_string_rel",
+    "normG_trailing_slash", "norm_trailing_slash_string", "norm_trailing_slash_string_rel",
+    "normG_index", "norm_index_string", "norm_index_string_rel",
+    "normG_fragment", "norm_fragment_string", "norm_fragment_string_rel",
+    "norm_surrounding_ws_string", "norm_clean_string",
+    "normG_tracking_item", "norm_tracking_item_string", "norm_tracking_item_string_rel",
+    "normG_tracking_item_first", "norm_tracking_item_first_string", "norm_tracking_item_first_string_rel",
+    "normG_tracking_item_alone", "norm_tracking_item_alone_string", "norm_tracking_item_alone_string_rel",
+    "normG_escape_spelling", "norm_escape_spelling_string", "norm_escape_spelling_string_rel",
+    "normG_query_permutation", "norm_query_permutation_string", "norm_query_permutation_string_rel",
+    "normG_amp_semicolon_partial", "norm_amp_semicolon_string_partial", "norm_amp_semicolon_string_rel_partial",
+]]
+EXTRA_IMPORTS = ["UralModel.Props.C04Whole"]
 TABLE_OBLIGATIONS = [P + n for n in [
     "tracking_core_stripped",
     "tracking_core_amp",
@@ -658,6 +689,8 @@ def ops(case):
     for u in _urls(case):
         if _modelable(u):
             out.extend(nc.ops(u, case["opts"]))
+            # the whole function on the string, the parser being the model's own
+            out.extend(nw.norm_ops(u, case["opts"]))
     return out
 
 
@@ -666,6 +699,7 @@ def impl(case):
     for u in _urls(case):
         if _modelable(u):
             out.extend(nc.impl(u, case["opts"]))
+            out.extend(nw.norm_impl(u, case["opts"]))
     return out
 
 
@@ -710,13 +744,14 @@ def nontrivial(case):
 
 def classify(case):
     if case["kind"] == "raw":
-        return ["corpus"]
+        return ["corpus"] + sorted(set(nw.label(u, case["opts"]) for u in (case["u"], case["v"])))
     v = variant(case)
     if v is None:
         return ["not-applicable"]
     labs = ["T:" + t[0] for t in case["T"]]
     labs.append("composed:%d" % len(case["T"]))
     labs.append("opts:" + ("+".join(sorted(case["opts"])) or "default"))
+    labs.extend(sorted(set(nw.label(u, case["opts"]) for u in v)))
     return labs
 
 
@@ -730,7 +765,8 @@ RULE = (
     "surrounding whitespace / control characters), x {defaults, quoted, platform_aware, both}. Oracle (implementation "
     "only): normalize_url(T(u)) == normalize_url(u), and normalize_url(w) == normalize_url(infer_redirection(w), "
     "infer_redirection=False) for both spellings (unless both calls return their argument unchanged: unparseable). "
-    "Both spellings also go through the model-vs-implementation comparison (norm_clean + norm_parts lines). "
+    "Both spellings also go through the model-vs-implementation comparison (norm_clean + norm_parts lines, and normalize_whole: "
+    "the whole-string model with its own parser, skipped and counted for strings outside the parser model's domain). "
     "Non-trivial = the transformation is applicable and changed the string; distinct = distinct (base, variant, options)."
 )
 EXHAUSTIVE = {
@@ -738,7 +774,7 @@ EXHAUSTIVE = {
     "thorough": "the same under all four option sets",
 }
 TRUSTED = [
-    "CPython urlsplit and the SplitResult accessors: the harness ships the Parsed record of the string normalize_url parses; that the real parser maps a string transformation (another scheme, userinfo, label, port, slash, item, separator) to the component transformation the theorems are stated on is covered by the correspondence of both spellings and by the oracle, not proved",
+    "CPython urlsplit and the SplitResult accessors are a hand model (Py/UrlSplit.lean, Py/UrlAccessors.lean) compared with the real parser on every run, not proved equal to it: (a) component level — the harness ships the Parsed record of the string normalize_url parses (`norm_parts`); (b) string level — the model's own parser inside the whole-string model (`normalize_whole`: string + options in, result out, nothing of CPython shipped) against the real normalize_url on both spellings of every case whose parsed string is inside the parser model's stated domain (no non-ASCII cased character in the host, no NFKC-sensitive netloc, no IPv4 tail in an IPv6 literal; the others are counted as whole:outside-model:*). How the MODELLED parser maps a string transformation of the family (scheme, userinfo, default port, host case, leading label, trailing slash, index name, fragment, query item, permutation, '&amp;') to the component transformation is PROVED for the grammar class of Lemmas/NormBridge.lean (parse_str; Props/C04Whole.lean norm_*_string); outside that class (an IP literal the model's approximate bracket check rejects, userinfo with brackets, relative paths, platform_aware) it is covered by correspondence + oracle only",
     "attempt_to_decode_idna (CPython idna codec) is the abstract `puny` (PunyLaws / PunyCase hypotheses, instances proved for the identity decoder; the real codec's answers are shipped per label and compared)",
     "the platform_aware branch (facebook / youtube rewriting) is an abstract `platform : Str -> Str`; the harness ships the rewritten URL's components",
     "infer_redirection is the Lean model of C15 (Model/Redirect.lean), compared on every case (`norm_clean` line)",
@@ -759,9 +795,18 @@ UNPROVED = (
     "argument is returned as it is, C05) now that infer_redirection reads the cleaned url. PARTIAL: "
     "norm_amp_semicolon_partial (hypothesis: the item after '&amp;' does not itself "
     "start with 'amp;' — fullAmpSemicolon_fails; outside the family). norm_query_permutation needs 'no item starts with amp;' when the "
-    "repair is on (the repair treats the first item differently). Not proved, explored on every run by oracle + "
-    "correspondence of both spellings: (i) the CPython bridging from string transformations to component "
-    "transformations; (ii) invariance of infer_redirection itself under the family (KF-C04-1 = D29: hints are searched in "
+    "repair is on (the repair treats the first item differently). STRING LEVEL (Props/C04Whole.lean): "
+    "normalizeUrlString(T u) = normalizeUrlString(u) is proved for scheme swap / removal, userinfo, explicit 80 / 443, host case, "
+    "leading irrelevant label, trailing slash, index name, non-routing fragment, tracking item at any position / alone, permutation, "
+    "'&amp;' (partial as above), escape spelling of path / query / fragment, for every pair u, T u whose cleaned, resolved forms are strings of the grammar class NormBridge.UrlG.wf "
+    "(letters{1,64}:// | // | nothing-and-not-protocol-like; userinfo without /?#[]; host without /?#@:[] or an IP literal [h] accepted by the model's bracket check; port text without "
+    "/?#@[]; absolute or empty path without ?#; query without #) with a port text that is a port; whitespace / control characters "
+    "for every string that parses. Witnesses outside the class (C04Whole, by evaluation): 'http://a/b@a.com/' (userinfo with '/'), "
+    "'x://a.com' (bare string that starts like a protocol), 'http://u@a.com:x/' (port text that is no port: returned unchanged). "
+    "Not in the class, hence oracle + correspondence only: brackets in the userinfo, IP literals with an IPv4 tail, relative paths, the amp- prefix "
+    "on strings (component level only), platform_aware. Not proved, explored on every run by oracle + "
+    "correspondence of both spellings: (i) that the hand model of urlsplit + accessors IS CPython's (compared, C01/C02 parse_url "
+    "streams and normalize_whole here); (ii) invariance of infer_redirection itself under the family (KF-C04-1 = D29: hints are searched in "
     "the raw string) — the theorems cover the function after the pre-step (norm_redirect_prestep is exact); (iii) "
     "platform_aware=True (abstract `platform`; KF-C04-4 = D53); (iv) non-absolute paths (no authority) for slash / index; "
     "(v) options: each theorem names the options it needs (strip_trailing_slash for the query and path theorems, lowercase off)."
